@@ -3,6 +3,7 @@ CONSTANTS
   MaxTime = 3
   Cap0 = 0
   Faults = TRUE
+  ExportMode = "fixed"
   CapMode = "fixed"
   GetMode = "get"
   Emit = FALSE
